@@ -33,7 +33,12 @@ def rand_atom(rng, pool, with_time):
     o, _ = rng.choice(pool)
     D = cal.Day(o)
     op = rng.choice(OPS if rng.random() < .6 else ["="])
-    f = rng.choice(["Y", "m", "d", "a", "A", "b", "B", "u", "j", "c"])
+    f = rng.choice(["Y", "m", "d", "a", "A", "b", "B", "u", "j", "c", "V", "U", "W", "C"])
+    if f in ("V", "U", "W", "C"):
+        # week of the year in its four conventions (ISO, Sunday based, Monday based, plain count)
+        cur = {"V": D.iw, "U": D.wk_U, "W": D.wk_W, "C": D.cnt_year}[f]
+        v = rng.choice([cur, cur, 0, 1, 52, 53, rng.randrange(0, 54)])
+        return ("atom", "wk" + f, op, v, "%%%s%s%s" % (f, op, rng.choice(["%d", "%02d"]) % v))
     if f == "Y":
         v = D.y + rng.choice([0, 0, 1, -1])
         return ("atom", "Y", op, v, "%%Y%s%d" % (op, v))
@@ -161,7 +166,8 @@ def ev(t, val):
         return cmp_op(op, s, v)
     if kind == "dt":
         return cmp_op(op, (o, s), v)
-    lhs = {"Y": D.y, "m": D.m, "d": D.d, "j": D.yday, "c": D.cnt_mon, "u": D.iwd, "wd": D.wd}[kind]
+    lhs = {"Y": D.y, "m": D.m, "d": D.d, "j": D.yday, "c": D.cnt_mon, "u": D.iwd, "wd": D.wd,
+           "wkV": D.iw, "wkU": D.wk_U, "wkW": D.wk_W, "wkC": D.cnt_year}[kind]
     return cmp_op(op, lhs, v)
 
 
@@ -321,7 +327,7 @@ def main(tier, seed):
         ctx.merge(sh)
     ctx.rule = ("events = one dgrep [-v] EXPR run over 28 generated lines (dates or date-times inside free text, lines without a "
                 "date, lines with two dates, CR endings); EXPR rendered from a random tree over comparison atoms (dates, times, "
-                "date-times, %Y %m %d %j %c %u %a %A %b %B with all six operators) with !, &&, || and the parentheses its shape "
+                "date-times, %Y %m %d %j %c %u %a %A %b %B %V %U %W %C with all six operators) with !, &&, || and the parentheses its shape "
                 "needs, random blanks; shapes: left/right chains of && and ||, conjunctions of disjunctions, negated junctions, "
                 "double negation, && over || at depth, random trees to depth 4; oracle: ordinary Boolean evaluation of the tree on "
                 "each date of a line, line selected iff some date satisfies it, -v the complement; the whole output must equal the "
